@@ -2,7 +2,7 @@
 
 The map is the *stated abstraction* of the extraction:
   intrusive_ptr/unique_ptr/shared_ptr<T>      -> T*        (reference counts, destructors dropped)
-  vector/deque/list<T>                        -> struct vf_seq_<tag(T)>   (array + head + length + capacity)
+  vector/deque/list/stack<T>                  -> struct vf_seq_<tag(T)>   (array + head + length + capacity)
   iterators of those                          -> T*
   std::pair<A,B>                              -> struct vf_pair_<A>_<B> {first, second}
   std::optional<T>                            -> struct vf_opt_<T> {has, value}
@@ -276,7 +276,9 @@ def parse(s):
 
 SMART_PTRS = {"intrusive_ptr", "unique_ptr", "shared_ptr", "weak_ptr",
               "__shared_ptr", "__shared_ptr_access"}  # the last two: libstdc++ bases of shared_ptr (operator->, reset, bool)
-SEQS = {"vector", "deque", "list"}
+SEQS = {"vector", "deque", "list", "stack"}
+# container adaptors over a sequence: the adaptor IS its underlying sequence, member functions renamed (libmap.member_call)
+SEQ_ADAPTORS = {"stack": {"push": "push_back", "emplace": "emplace_back", "pop": "pop_back", "top": "back"}}
 SEQ_ITERS = {"__normal_iterator", "_Deque_iterator", "_List_iterator", "_List_const_iterator"}
 # iterators of the map/set models: pointer to the entry (pair) / key
 ASSOC_ITERS = {"_Rb_tree_iterator", "_Rb_tree_const_iterator", "_Node_iterator", "_Node_const_iterator",
@@ -474,6 +476,9 @@ class TypeMap:
             # std::vector<T>::iterator printed unsugared
             m = re.match(r"(.*)<(.*)>::(const_)?(reverse_)?iterator$", name)
             if m and m.group(1).split("::")[-1] in SEQS:
+                return self.c(parse(first_targ(m.group(2)))) + "*"
+            if m and m.group(1).split("::")[-1] in ("set", "unordered_set") and not m.group(4):
+                # std::unordered_set<K>::const_iterator printed unsugared: pointer to the key slot of the set model
                 return self.c(parse(first_targ(m.group(2)))) + "*"
             raise Unsupported("iterator type %s" % name)
         if last == "pair" and len(t.args) == 2:
